@@ -34,11 +34,15 @@ partial def parseOp : List String → Option Op
   | _ => none
 
 /-- element type whose values an operation returns (for rendering), following `item` -/
-def retElemTy : Op → Ty → Option Ty
-  | .item _ op, .flex it _ => retElemTy op it
-  | .last op, .ustruct _ last => retElemTy op last
-  | _, .vec et _ => some et
-  | _, _ => none
+def retElemTy : Op → Ty → Slice → Option Ty
+  | .item _ op, .flex it _, s => retElemTy op it s
+  | .last op, .ustruct _ last, s => retElemTy op last s
+  | .last op, .uenum tag vs, s =>          -- top level only: the current variant is read from the value's own tag
+    match tag.readU s with
+    | .ok t => (match (vs.getD t []).getLast? with | some lt => retElemTy op lt s | none => none)
+    | _ => none
+  | _, .vec et _, _ => some et
+  | _, _, _ => none
 
 def renderVal (et : Option Ty) (bs : Bytes) : String :=
   match et with
@@ -60,7 +64,7 @@ def runO (t : Ty) (a16 : Nat) (pre : Bytes) (op : Op) : String :=
       let before := probeStr t s
       let after := probeStr t ⟨a16, o.bytes⟩
       let same := if stripCaps before == stripCaps after then 1 else 0
-      s!"{retStr (retElemTy op t) o.ret} {maskedHex o.bytes o2.bytes} p={after} same={same}"
+      s!"{retStr (retElemTy op t s) o.ret} {maskedHex o.bytes o2.bytes} p={after} same={same}"
     | .fault f, _ => s!"FAULT:{repr f}"
     | _, _ => "MODEL-ERR"
 end Drv
